@@ -93,6 +93,7 @@ fn unary_text(op: &Op) -> Option<String> {
         Op::Identity => "identity::<It>()".to_string(),
         Op::Handoff => "handoff()".to_string(),
         Op::Decay => "filter(|x: &It| fns::decay_keep(x)) -> map(|x: It| fns::decay(x))".to_string(),
+        Op::Batch => "batch()".to_string(),
         Op::Enumerate(p) => format!("enumerate::<{}>() -> map(|(i, x): (usize, It)| fns::norm_enum(i, x))", p.s()),
         Op::Unique(p) => format!("unique::<{}>()", p.s()),
         Op::Persist => "persist::<'static>()".to_string(),
@@ -209,9 +210,11 @@ fn binary_text(op: &Op) -> Option<(String, [&'static str; 2], [Option<String>; 2
 /// The `dfir_syntax!` body of a program (one statement per line).
 pub fn dfir_text(p: &Program) -> String {
     let cons = consumers(p);
-    let mut s = String::new();
+    let mut outside = String::new();
+    let mut inside = String::new();
     let tee = |i: usize| if cons[i][0] > 1 { " -> tee()" } else { "" };
     for (i, nd) in p.nodes.iter().enumerate() {
+        let mut s = String::new();
         let inr = |k: usize| out_ref(p, &cons, nd.ins[k]);
         match &nd.op {
             Op::Source(k) => {
@@ -323,8 +326,22 @@ pub fn dfir_text(p: &Program) -> String {
         } else if nd.op.n_out() == 1 && cons[i][0] == 0 {
             s += &format!("n{i} -> null();\n");
         }
+        if p.node_in_loop(i) {
+            for line in s.lines() {
+                inside += "    ";
+                inside += line;
+                inside += "\n";
+            }
+        } else {
+            outside += &s;
+        }
     }
-    s
+    if !inside.is_empty() {
+        outside += "loop {\n";
+        outside += &inside;
+        outside += "};\n";
+    }
+    outside
 }
 
 /// The Rust function `prog_<id>` driving one program.
